@@ -61,6 +61,78 @@ func c07Graphs(thorough bool) []c07Graph {
 		c07Graph{desc: "layout-frontmatter-collides", files: map[string]string{"p.vuego": c07Page("a"), "layouts/a.vuego": "---\ntitle: LT\n---\n" + `<div data-m="a"><i>{{ title }}</i><div v-html="content"></div></div>`},
 			want: []string{"a", "page"}, data: map[string]any{"fromfill": "FF", "title": "FILLT"}, wantTxt: []string{"PT FF", "<i>LT</i>"}},
 	)
+	gs = append(gs,
+		c07Graph{desc: "default-base-ignores-sibling-base", files: map[string]string{"pages/p.vuego": c07Page(""), "pages/base.vuego": c07Layout("sibling-base", "", ""), "layouts/base.vuego": c07Layout("base", "", "")}, page: "pages/p.vuego", want: []string{"base", "page"}},
+		c07Graph{desc: "root-page-named-base", files: map[string]string{"base.vuego": c07Page(""), "layouts/base.vuego": c07Layout("base", "", "")}, page: "base.vuego", want: []string{"base", "page"}},
+		c07Graph{desc: "sibling-base-without-layouts-base", files: map[string]string{"pages/p.vuego": c07Page(""), "pages/base.vuego": c07Layout("sibling-base", "", "")}, page: "pages/p.vuego", want: []string{"page"}},
+	)
+	// pages in a subdirectory with sibling files that carry layout names: reference resolver = the documented rule
+	for _, base := range []bool{false, true} {
+		for _, pl := range []string{"", "a", "b", "base"} {
+			for sib := 0; sib < 8; sib++ { // which of a, b, base exist next to the page
+				for _, al := range []string{"", "b", "base"} {
+					files := map[string]string{"pages/p.vuego": c07Page(pl), "layouts/a.vuego": c07Layout("a", al, ""), "layouts/b.vuego": c07Layout("b", "", "")}
+					next := map[string]string{"layouts/a.vuego": al, "layouts/b.vuego": "", "layouts/base.vuego": ""}
+					if base {
+						files["layouts/base.vuego"] = c07Layout("base", "", "")
+					}
+					for i, n := range []string{"a", "b", "base"} {
+						if sib&(1<<i) != 0 {
+							files["pages/"+n+".vuego"] = c07Layout("rel-"+n, "", "")
+							next["pages/"+n+".vuego"] = ""
+						}
+					}
+					resolve := func(name, from string) string {
+						dir := ""
+						if i := strings.LastIndex(from, "/"); i >= 0 {
+							dir = from[:i+1]
+						}
+						if _, ok := files[dir+name+".vuego"]; ok {
+							return dir + name + ".vuego"
+						}
+						if _, ok := files["layouts/"+name+".vuego"]; ok {
+							return "layouts/" + name + ".vuego"
+						}
+						return ""
+					}
+					g := c07Graph{desc: fmt.Sprintf("subdir base=%v p>%s siblings=%d a>%s", base, pl, sib, al), files: files, page: "pages/p.vuego"}
+					var chain []string
+					cur, curName := "pages/p.vuego", pl
+					if pl == "" && base {
+						chain = []string{"layouts/base.vuego"}
+					}
+					bad := false
+					for steps := 0; curName != "" && steps < 10; steps++ {
+						f := resolve(curName, cur)
+						if f == "" {
+							bad = true
+							break
+						}
+						for _, c := range chain {
+							if c == f {
+								bad = true
+							}
+						}
+						if bad {
+							break
+						}
+						chain = append(chain, f)
+						cur, curName = f, next[f]
+					}
+					if bad {
+						g.wantErr = true
+					} else {
+						for i := len(chain) - 1; i >= 0; i-- {
+							m := c07MarkRe.FindStringSubmatch(files[chain[i]])
+							g.want = append(g.want, m[1])
+						}
+						g.want = append(g.want, "page")
+					}
+					gs = append(gs, g)
+				}
+			}
+		}
+	}
 	// chains of every length around the documented limit (100 links)
 	for _, n := range []int{1, 5, 98, 99, 100, 101, 150} {
 		files := map[string]string{"p.vuego": c07Page("l1")}
